@@ -31,7 +31,7 @@ def run(ctx):
               "(the obligation gibbs.mixture-weight carries the recurrence as Gamma(s+1) = s*Gamma(s), rate^(s+1) = rate*rate^s)",
               "that this auxiliary-variable step leaves p(alpha | K, n) invariant is West (1992) / Escobar & West (1995): trusted",
               "Tree.node_data lists each clone once and the outlier list under -1 (CTree model, Layer 1)",
-              "the clamp max(draw, 1e-10) is part of the contract; it perturbs the exact conditional on the event draw < 1e-10 (probability negligible, recorded here)")
+              "a positive floor below the smallest normal float (guard against underflow to 0.0) is allowed by the contract; anything higher distorts the mixture (finding F18: the former floor 1e-10 caught most draws under the run command's Gamma(0.01, 0.01) prior with one clone)")
     ctx.assume("A-REAL")
     ctx.extra["explanation"] = ("Deductive: the ghost draw trace of the real sample() is [Beta(alpha+1,n), Bernoulli(pi), Gamma(shape, 1/(b-log eta))] with pi the weight of the "
                                 "x^(a+K-1) component (NRA), every draw uses the sampler's generator; run.py passes K, n without outliers and stores the value through the "
